@@ -14,7 +14,7 @@
 
     PROVED HERE: C04_errdyn_is_linearisation (all 9 error directions at once, N explicit),
       C04_sensor_coupling_exact, C04_model_in_spec_terms, C04_neglected_small, C04_reduction_2d,
-      C04_propagate_consistent_3d/_2d, C04_pert_scale.
+      C04_propagate_consistent_3d/_2d, C04_errdyn2d_is_linearisation (no-altitude mode), C04_pert_scale.
     NOT PROVED (see evidence `assumptions`): the exchange of the u- and t-derivatives linking this continuous
       statement to finite-time error growth (finite_step_error_growth_partial), and the quantitative "within the size
       of the neglected terms" over a finite filter step 0.1..2 s (checked numerically on the implementation by
@@ -148,6 +148,53 @@ Theorem C04_t32_constraint_row : forall (VN VE : R),
 Proof. exact t32_constraint_row. Qed.
 Print Assumptions C04_t32_constraint_row.
 
+(** no-altitude mode: on level trajectories (VD = 0, vertical channel in equilibrium) the generated 7-state F2 plus the reduced remainder is the linearisation of the 2D navigation equations (altitude and VD frozen) in the lifted coordinates lift s y = T32(VN, VE) y, all 15 components *)
+Theorem C04_errdyn2d_is_linearisation : forall s roll pitch heading m y, dom s -> level s m ->
+  is_derive (lin2 nav_rhs_lat s_lat s m y) 0 (s_lat (pdelta s (lift s (errdynR s roll pitch heading y)))) /\
+  is_derive (lin2 nav_rhs_lon s_lon s m y) 0 (s_lon (pdelta s (lift s (errdynR s roll pitch heading y)))) /\
+  is_derive (lin2 rhs_zero s_alt s m y) 0 (s_alt (pdelta s (lift s (errdynR s roll pitch heading y)))) /\
+  is_derive (lin2 nav_rhs_VN s_VN s m y) 0 (s_VN (pdelta s (lift s (errdynR s roll pitch heading y)))) /\
+  is_derive (lin2 nav_rhs_VE s_VE s m y) 0 (s_VE (pdelta s (lift s (errdynR s roll pitch heading y)))) /\
+  is_derive (lin2 rhs_zero s_VD s m y) 0 (s_VD (pdelta s (lift s (errdynR s roll pitch heading y)))) /\
+  is_derive (lin2 nav_rhs_C00 s_C00 s m y) 0 (s_C00 (pdelta s (lift s (errdynR s roll pitch heading y)))) /\
+  is_derive (lin2 nav_rhs_C01 s_C01 s m y) 0 (s_C01 (pdelta s (lift s (errdynR s roll pitch heading y)))) /\
+  is_derive (lin2 nav_rhs_C02 s_C02 s m y) 0 (s_C02 (pdelta s (lift s (errdynR s roll pitch heading y)))) /\
+  is_derive (lin2 nav_rhs_C10 s_C10 s m y) 0 (s_C10 (pdelta s (lift s (errdynR s roll pitch heading y)))) /\
+  is_derive (lin2 nav_rhs_C11 s_C11 s m y) 0 (s_C11 (pdelta s (lift s (errdynR s roll pitch heading y)))) /\
+  is_derive (lin2 nav_rhs_C12 s_C12 s m y) 0 (s_C12 (pdelta s (lift s (errdynR s roll pitch heading y)))) /\
+  is_derive (lin2 nav_rhs_C20 s_C20 s m y) 0 (s_C20 (pdelta s (lift s (errdynR s roll pitch heading y)))) /\
+  is_derive (lin2 nav_rhs_C21 s_C21 s m y) 0 (s_C21 (pdelta s (lift s (errdynR s roll pitch heading y)))) /\
+  is_derive (lin2 nav_rhs_C22 s_C22 s m y) 0 (s_C22 (pdelta s (lift s (errdynR s roll pitch heading y)))).
+Proof. exact errdyn2d_is_linearisation. Qed.
+Print Assumptions C04_errdyn2d_is_linearisation.
+
+(** the lift is the generated _transform_3d_2d(VN, VE) *)
+Theorem C04_lift_is_T32 : forall s y,
+  e0 (lift s y) = T32m (s_VN s) (s_VE s) 0%nat 0%nat * y0 y + T32m (s_VN s) (s_VE s) 0%nat 1%nat * y1 y + T32m (s_VN s) (s_VE s) 0%nat 2%nat * y2 y + T32m (s_VN s) (s_VE s) 0%nat 3%nat * y3 y + T32m (s_VN s) (s_VE s) 0%nat 4%nat * y4 y + T32m (s_VN s) (s_VE s) 0%nat 5%nat * y5 y + T32m (s_VN s) (s_VE s) 0%nat 6%nat * y6 y /\
+  e1 (lift s y) = T32m (s_VN s) (s_VE s) 1%nat 0%nat * y0 y + T32m (s_VN s) (s_VE s) 1%nat 1%nat * y1 y + T32m (s_VN s) (s_VE s) 1%nat 2%nat * y2 y + T32m (s_VN s) (s_VE s) 1%nat 3%nat * y3 y + T32m (s_VN s) (s_VE s) 1%nat 4%nat * y4 y + T32m (s_VN s) (s_VE s) 1%nat 5%nat * y5 y + T32m (s_VN s) (s_VE s) 1%nat 6%nat * y6 y /\
+  e2 (lift s y) = T32m (s_VN s) (s_VE s) 2%nat 0%nat * y0 y + T32m (s_VN s) (s_VE s) 2%nat 1%nat * y1 y + T32m (s_VN s) (s_VE s) 2%nat 2%nat * y2 y + T32m (s_VN s) (s_VE s) 2%nat 3%nat * y3 y + T32m (s_VN s) (s_VE s) 2%nat 4%nat * y4 y + T32m (s_VN s) (s_VE s) 2%nat 5%nat * y5 y + T32m (s_VN s) (s_VE s) 2%nat 6%nat * y6 y /\
+  e3 (lift s y) = T32m (s_VN s) (s_VE s) 3%nat 0%nat * y0 y + T32m (s_VN s) (s_VE s) 3%nat 1%nat * y1 y + T32m (s_VN s) (s_VE s) 3%nat 2%nat * y2 y + T32m (s_VN s) (s_VE s) 3%nat 3%nat * y3 y + T32m (s_VN s) (s_VE s) 3%nat 4%nat * y4 y + T32m (s_VN s) (s_VE s) 3%nat 5%nat * y5 y + T32m (s_VN s) (s_VE s) 3%nat 6%nat * y6 y /\
+  e4 (lift s y) = T32m (s_VN s) (s_VE s) 4%nat 0%nat * y0 y + T32m (s_VN s) (s_VE s) 4%nat 1%nat * y1 y + T32m (s_VN s) (s_VE s) 4%nat 2%nat * y2 y + T32m (s_VN s) (s_VE s) 4%nat 3%nat * y3 y + T32m (s_VN s) (s_VE s) 4%nat 4%nat * y4 y + T32m (s_VN s) (s_VE s) 4%nat 5%nat * y5 y + T32m (s_VN s) (s_VE s) 4%nat 6%nat * y6 y /\
+  e5 (lift s y) = T32m (s_VN s) (s_VE s) 5%nat 0%nat * y0 y + T32m (s_VN s) (s_VE s) 5%nat 1%nat * y1 y + T32m (s_VN s) (s_VE s) 5%nat 2%nat * y2 y + T32m (s_VN s) (s_VE s) 5%nat 3%nat * y3 y + T32m (s_VN s) (s_VE s) 5%nat 4%nat * y4 y + T32m (s_VN s) (s_VE s) 5%nat 5%nat * y5 y + T32m (s_VN s) (s_VE s) 5%nat 6%nat * y6 y /\
+  e6 (lift s y) = T32m (s_VN s) (s_VE s) 6%nat 0%nat * y0 y + T32m (s_VN s) (s_VE s) 6%nat 1%nat * y1 y + T32m (s_VN s) (s_VE s) 6%nat 2%nat * y2 y + T32m (s_VN s) (s_VE s) 6%nat 3%nat * y3 y + T32m (s_VN s) (s_VE s) 6%nat 4%nat * y4 y + T32m (s_VN s) (s_VE s) 6%nat 5%nat * y5 y + T32m (s_VN s) (s_VE s) 6%nat 6%nat * y6 y /\
+  e7 (lift s y) = T32m (s_VN s) (s_VE s) 7%nat 0%nat * y0 y + T32m (s_VN s) (s_VE s) 7%nat 1%nat * y1 y + T32m (s_VN s) (s_VE s) 7%nat 2%nat * y2 y + T32m (s_VN s) (s_VE s) 7%nat 3%nat * y3 y + T32m (s_VN s) (s_VE s) 7%nat 4%nat * y4 y + T32m (s_VN s) (s_VE s) 7%nat 5%nat * y5 y + T32m (s_VN s) (s_VE s) 7%nat 6%nat * y6 y /\
+  e8 (lift s y) = T32m (s_VN s) (s_VE s) 8%nat 0%nat * y0 y + T32m (s_VN s) (s_VE s) 8%nat 1%nat * y1 y + T32m (s_VN s) (s_VE s) 8%nat 2%nat * y2 y + T32m (s_VN s) (s_VE s) 8%nat 3%nat * y3 y + T32m (s_VN s) (s_VE s) 8%nat 4%nat * y4 y + T32m (s_VN s) (s_VE s) 8%nat 5%nat * y5 y + T32m (s_VN s) (s_VE s) 8%nat 6%nat * y6 y.
+Proof. exact lift_is_T32. Qed.
+Print Assumptions C04_lift_is_T32.
+
+(** (F + N) T32 y = T32 (F2 + N2) y on the retained states; its DR3 component vanishes *)
+Theorem C04_errdyn_lift : forall s roll pitch heading y,
+  errdyn0 s roll pitch heading (lift s y) = errdynR0 s roll pitch heading y /\
+  errdyn1 s roll pitch heading (lift s y) = errdynR1 s roll pitch heading y /\
+  errdyn3 s roll pitch heading (lift s y) = errdynR2 s roll pitch heading y /\
+  errdyn4 s roll pitch heading (lift s y) = errdynR3 s roll pitch heading y /\
+  errdyn6 s roll pitch heading (lift s y) = errdynR4 s roll pitch heading y /\
+  errdyn7 s roll pitch heading (lift s y) = errdynR5 s roll pitch heading y /\
+  errdyn8 s roll pitch heading (lift s y) = errdynR6 s roll pitch heading y /\
+  errdyn2 s roll pitch heading (lift s y) = 0.
+Proof. exact errdyn_lift. Qed.
+Print Assumptions C04_errdyn_lift.
+
 (** one step of propagate_errors (9 states): identity at dt = 0 and derivative (F_k + F_k+1)/2 x + (B_k + B_k+1)/2 e at dt = 0 (trapezoid); with F_k+1 = F_k this is F x + B_gyro e_g + B_accel e_a *)
 Theorem C04_propagate_consistent_3d : forall (Fa Fb Ga Gb Aa Ab : mat) (x eg ea : nat -> R) (i : nat), (i < 9)%nat ->
   prop3 i 0 Fa Fb Ga Gb Aa Ab x eg ea = x i /\
@@ -185,6 +232,14 @@ Proof.
   unfold mat_from_rph_m00, mat_from_rph_m01, mat_from_rph_m02, mat_from_rph_m10, mat_from_rph_m11,
     mat_from_rph_m12, mat_from_rph_m20, mat_from_rph_m21, mat_from_rph_m22.
   repeat autounfold with mat_from_rph_db. rewrite !Rmult_0_l, cos_0, sin_0. repeat split; ring.
+Qed.
+Example C04_level_example : exists f2 : R,
+  level (mkS 45 0 100 100 50 0 1 0 0 0 1 0 0 0 1) (mkI 0 0 0 0 0 f2).
+Proof.
+  exists (cross2 (nav_cor_N 45 100 100 50) (nav_cor_E 45 100 100 50) (nav_cor_D 45 100 100 50) 100 50 0
+          - normal_gravity (45 * d2r) 100).
+  unfold level, app, nav_rhs_VD, dot3; cbn [s_lat s_lon s_alt s_VN s_VE s_VD s_C00 s_C01 s_C02 s_C10 s_C11 s_C12
+    s_C20 s_C21 s_C22 i_w0 i_w1 i_w2 i_f0 i_f1 i_f2]. split; [reflexivity | ring].
 Qed.
 (** the remainder is not identically zero: N36 at a descending state in the northern hemisphere *)
 Example C04_neglected_nonzero : N02 (mkS 0 0 0 100 0 0 1 0 0 0 1 0 0 0 1) <> 0.
